@@ -859,7 +859,11 @@ def call_external(interp, f, args, kwargs):
                 r = interp.on_method(f.args[0], f.args[1], args, kwargs)
                 if r is not NotImplemented:
                     return r
-            if f.args[1] in interp.pure_methods:
+            if f.args[1] in interp.pure_methods or (
+                    isinstance(f.args[0], T) and (
+                        interp.types.get(f.args[0]) or
+                        interp.path_types.get(f.args[0])) in ('str',
+                                                              'bytes')):
                 return method_term(interp, f.args[0], f.args[1], args,
                                    kwargs)
             return interp.opaque_call('.' + f.args[1], f,
@@ -959,7 +963,8 @@ def method_term(interp, base, name, args, kwargs):
             interp.call_raises['.' + name] = interp.method_raises[name]
             interp.may_raise('.' + name, t)
         return t
-    bt = interp.types.get(tb) if isinstance(tb, T) else (
+    bt = (interp.types.get(tb) or interp.path_types.get(tb)) \
+        if isinstance(tb, T) else (
         'str' if isinstance(tb, K) and isinstance(tb.v, str) else
         'bytes' if isinstance(tb, K) and isinstance(tb.v, bytes) else None)
     if isinstance(tb, T) and tb.op == 'bytes':
